@@ -178,5 +178,92 @@ def iteCapL (cap : Nat) (g u v : Int) : M Int := tryToReorder (iteRawG (findOrAd
 def varCapL (cap : Nat) (name : String) : M Int := tryToReorder (varBodyG (findOrAddCapL cap) name)
 /-- and on the un-repaired one (driver op `*_old`, used to show what the check detects) -/
 def iteCapO (cap : Nat) (g u v : Int) : M Int := tryToReorder (iteRawG (findOrAddCapO cap) g u v)
+def varCapO (cap : Nat) (name : String) : M Int := tryToReorder (varBodyG (findOrAddCapO cap) name)
+
+end DD
+
+namespace DD
+
+/-! ### `swap` over any `find_or_add`
+
+`BDD.swap` reaches `find_or_add` in its third loop (`p = self.find_or_add(y, v0, w0)`,
+`q = self.find_or_add(y, v1, w1)`), AFTER the unique-table entries of both levels were popped,
+the nodes of level `y` moved up, and the children of the node being rebuilt decref'ed.  The text
+below is `moveDepStep`, `moveDep`, `swapNodes`, `swapWith`, `swapBody`, `swap` of DD.Order with
+`findOrAdd` abstracted (`swapG findOrAdd = swap`: `DD.swapG_findOrAdd`).  A `RuntimeError` of
+`find_or_add` propagates from the middle of the rewrite: nothing in `swap` undoes the first two
+loops (finding F22; `DD.swapCap_breaks_inv`). -/
+
+def moveDepStepG (foa : Int → Int → Int → M Int) (x y : Nat) (u : Nat) (v w : Int) : M (List Nat) := do
+  let m ← M.get
+  let n ← M.ofOption .key (m.tbl.succ[u]?)
+  M.assert (n.lvl = x)
+  M.assert (v ≠ 0 && w ≠ 0)
+  decref v
+  decref w
+  let (v0, v1, w0, w1) ← depCofactors v w y
+  let p ← foa y v0 w0
+  let q ← foa y v1 w1
+  M.assert (0 ≤ q)
+  M.assert (p ≠ q)
+  let lp ← lowHighLevel p
+  let lq ← lowHighLevel q
+  let fresh := (if lp = y then [p.natAbs] else []) ++ (if lq = y then [q.natAbs] else [])
+  setNode u ⟨x, p, q⟩
+  incref p
+  incref q
+  return fresh
+
+def moveDepG (foa : Int → Int → Int → M Int) (x y : Nat) (done : List Nat) :
+    List (Nat × Int × Int) → M (List Nat × List Nat)
+  | [] => pure ([], [])
+  | (u, v, w) :: rest => do
+    if done.contains u then moveDepG foa x y done rest else
+    let fresh ← moveDepStepG foa x y u v w
+    let (g, xf) ← moveDepG foa x y done rest
+    return (pushNew (pushNew g v.natAbs) w.natAbs, fresh ++ xf)
+
+def swapNodesG (foa : Int → Int → Int → M Int) (x y : Nat) (ox oy : List Nat) :
+    M (List (Nat × Int × Int) × List (Nat × Int × Int) × List Nat × List Nat) := do
+  let lx ← popLevel x ox
+  let ly ← popLevel y oy
+  moveUp x y ly
+  let done ← moveIndep x y lx
+  let (garbage, xfresh) ← moveDepG foa x y done lx
+  return (lx, ly, garbage, xfresh)
+
+def swapWithG (foa : Int → Int → Int → M Int) (x y : Nat) (oldsize : Nat) (ox oy : List Nat) :
+    M (Nat × Nat) := do
+  let (lx, ly, garbage, xfresh) ← swapNodesG foa x y ox oy
+  exchangeNames x y
+  collectGarbage (some (garbage.map (fun (k : Nat) => (k : Int))))
+  let m ← M.get
+  let newsize := m.len
+  checkNewLevels x y lx ly xfresh
+  return (oldsize, newsize)
+
+def swapBodyG (foa : Int → Int → Int → M Int) (x y : Nat) : M (Nat × Nat) := do
+  let m ← M.get
+  let oldsize := m.len
+  let (ox, oy) ← takeSwapOrders x y
+  swapWithG foa x y oldsize ox oy
+
+/-- `swap(x, y, all_levels)` over any `find_or_add` -/
+def swapG (foa : Int → Int → Int → M Int) (xa ya : VarOrLevel) (given : Bool) : M (Nat × Nat) := do
+  if !given then collectGarbage none
+  let x ← resolveVL xa
+  let y ← resolveVL ya
+  let m ← M.get
+  if !(0 ≤ x && x < m.nvars) then M.throw .value else
+  if !(0 ≤ y && y < m.nvars) then M.throw .value else
+  let lo := if x > y then y else x
+  let hi := if x > y then x else y
+  if lo ≥ hi then M.throw .value else
+  if hi - lo ≠ 1 then M.throw .value else
+  swapBodyG foa lo.toNat hi.toNat
+
+/-- `BDD.swap` of a manager with `max_nodes = cap` (abstract and literal `find_or_add`) -/
+def swapCap (cap : Nat) : VarOrLevel → VarOrLevel → Bool → M (Nat × Nat) := swapG (findOrAddCap cap)
+def swapCapL (cap : Nat) : VarOrLevel → VarOrLevel → Bool → M (Nat × Nat) := swapG (findOrAddCapL cap)
 
 end DD
